@@ -349,7 +349,9 @@ def rule_maybe_done(ctx, M):
         edges = bi.outcome_edges(c, "Ready")
         def is_done_of_output(v):
             from . import flow as _flow
-            return v is not None and v[0] == "agg" and v[1] == ("MaybeDone", "Done") and v[2] and _flow.is_payload(v[2][0], c.block, "Ready")
+            if v is not None and v[0] == "agg" and v[1] == ("MaybeDone", "Done") and v[2]:
+                return _flow.is_payload(v[2][0], c.block, "Ready") or _flow.is_payload(_flow.refine(bi, v[2][0]), c.block, "Ready")
+            return False
         sets = [s.block for s in bi.sites if s.callee.key == ("Pin", "set") and is_done_of_output(s.arg(1))]
         # `*this = MaybeDone::Done(res)` through the (unpinned) self reference
         body_ = bi.body
